@@ -152,6 +152,45 @@ func doDiagnose(in []byte) string {
 	}
 }
 
+// doConcurrent compiles every input from 16 goroutines at once (3 rounds, permuted order) and
+// compares each result with the sequential one: "same" or "diff <index>".
+func doConcurrent(hexes []string) string {
+	var ins [][]byte
+	for _, h := range hexes {
+		b, _ := hex.DecodeString(h)
+		ins = append(ins, b)
+	}
+	seq := make([]string, len(ins))
+	for i, in := range ins {
+		seq[i] = doCompile(in)
+	}
+	for round := 0; round < 3; round++ {
+		res := make([]string, len(ins))
+		var wg sync.WaitGroup
+		next := make(chan int, len(ins))
+		for k := range ins {
+			next <- (k*7 + round*3) % len(ins)
+		}
+		close(next)
+		for g := 0; g < 16; g++ {
+			wg.Add(1)
+			go func() {
+				defer wg.Done()
+				for i := range next {
+					res[i] = doCompile(ins[i])
+				}
+			}()
+		}
+		wg.Wait()
+		for i := range ins {
+			if res[i] != "" && res[i] != seq[i] {
+				return fmt.Sprintf("diff %d", i)
+			}
+		}
+	}
+	return "same"
+}
+
 type objBoth struct{ id, cls string }
 
 func (o objBoth) ObjectID() string    { return o.id }
@@ -305,6 +344,8 @@ func main() {
 			fmt.Fprintln(w, doDiagnose(arg))
 		case f[0] == "H":
 			fmt.Fprintln(w, doHelper(f[1:]))
+		case f[0] == "K":
+			fmt.Fprintln(w, doConcurrent(f[1:]))
 		default:
 			fmt.Fprintln(w, "BAD")
 		}
